@@ -158,6 +158,20 @@ func IsUnsafeMethod(method string) bool {
 	case http.MethodPost, http.MethodPut, http.MethodDelete, http.MethodPatch:
 		return true
 	default:
+		// RFC 9111 §4.4: any method that is not known to be safe (WebDAV write
+		// methods, unknown extension methods, ...) invalidates.
+		return !isSafeMethod(method)
+	}
+}
+
+// isSafeMethod reports whether the method is registered as safe in the IANA
+// HTTP Method Registry (RFC 9110 §9.2.1, §18.2). Method tokens are case-sensitive.
+func isSafeMethod(method string) bool {
+	switch method {
+	case http.MethodGet, http.MethodHead, http.MethodOptions, http.MethodTrace,
+		"PROPFIND", "REPORT", "SEARCH", "QUERY", "PRI":
+		return true
+	default:
 		return false
 	}
 }
